@@ -89,6 +89,7 @@ func famsQuick() []family {
 		{Name: "nr", Client: "norefresh", User: "u1", Scopes: s0},
 		{Name: "lapsed", Client: "lapsed", User: "u2", Scopes: "openid email offline_access", Pre: true},
 		{Name: "webB", Client: "web", User: "u2", Scopes: "openid email offline_access"},
+		{Name: "jlapsed", Client: "jlapsed", User: "u1", Scopes: "openid profile offline_access", Pre: true},
 	}
 }
 
@@ -102,6 +103,7 @@ func famsWide() []family {
 		{Name: "webjwt", Client: "webjwt", User: "u2", Scopes: "openid email offline_access", Pre: true}, // JWT access tokens
 		{Name: "jwt", Client: "jwt", User: "u1", Scopes: s0, Pre: true},
 		{Name: "jlapsed", Client: "jlapsed", User: "u1", Scopes: "openid profile offline_access", Pre: true},
+		{Name: "pub", Client: "pub", User: "u2", Scopes: "openid profile offline_access", Pre: true},
 	}
 }
 
@@ -115,21 +117,16 @@ func callersQuick() []callerDef {
 		{Name: "norefresh", Client: "norefresh", Mode: "basic", Secret: "secret-norefresh", Authed: "yes"},
 		{Name: "lapsed", Client: "lapsed", Mode: "basic", Secret: "secret-lapsed", Authed: "yes"},
 		{Name: "jwt", Client: "jwt", Mode: "assert", Secret: "p256b/jk2", Authed: "yes"},
+		{Name: "jlapsed", Client: "jlapsed", Mode: "assert", Secret: "p256c/lk1", Authed: "yes"},
 	}
 }
 
-func callersDeep() []callerDef {
+func callersThorough() []callerDef {
 	return append(callersQuick(),
 		callerDef{Name: "web-postbody", Client: "web", Mode: "post", Secret: "secret-web", Authed: "either"}, // DESIGN §1.6 (C05): channel of a correct secret is open
 		callerDef{Name: "anon", Client: "", Mode: "anon", Authed: "no"},
-	)
-}
-
-func callersWide() []callerDef {
-	return append(callersDeep(),
 		callerDef{Name: "post", Client: "post", Mode: "post", Secret: "secret-post", Authed: "yes"},
 		callerDef{Name: "jwt-badsig", Client: "jwt", Mode: "assert", Secret: "p256a/jk2", Authed: "no"}, // signed with a key the client never registered
-		callerDef{Name: "jlapsed", Client: "jlapsed", Mode: "assert", Secret: "p256c/lk1", Authed: "yes"},
 		callerDef{Name: "jwt-idonly", Client: "jwt", Mode: "id", Authed: "no"},
 		callerDef{Name: "webjwt", Client: "webjwt", Mode: "basic", Secret: "secret-webjwt", Authed: "yes"},
 	)
@@ -800,7 +797,9 @@ func (w *worker) doRefresh(s *state, tokRef, callerName, scopeName string) engin
 	// JWT access token (clients registered for that token type): same obligations on its claims
 	if at, _ := o.body["access_token"].(string); res.Sig == "" && strings.Count(at, ".") == 2 {
 		if cl := idTokenClaims(at); cl != nil {
-			sc, _ := cl["scope"].(string)
+			// the library's JWT access tokens carry no scope claim (the scopes live in the storage
+			// record, checked above); the claim is judged only when it is there
+			sc, hasScope := cl["scope"].(string)
 			got := set(strings.Fields(sc))
 			if sub, _ := cl["sub"].(string); sub != info.Sub {
 				res = engine.Bad(rule, o.class, "C07/subject-changed/"+rtr, describe()+fmt.Sprintf(" jwt access token sub=%q", sub))
@@ -808,9 +807,9 @@ func (w *worker) doRefresh(s *state, tokRef, callerName, scopeName string) engin
 				res = engine.Bad(rule, o.class, "C07/audience-changed/"+rtr, describe()+fmt.Sprintf(" jwt access token aud=%v", aud))
 			} else if cid, _ := cl["client_id"].(string); cid != info.Client {
 				res = engine.Bad(rule, o.class, "C07/client-changed/"+rtr, describe()+fmt.Sprintf(" jwt access token client_id=%q", cid))
-			} else if !subset(got, info.Granted) {
+			} else if hasScope && !subset(got, info.Granted) {
 				res = engine.Bad(rule, o.class, "C07/scope-grew/"+rtr+"/"+scopeClass, describe()+fmt.Sprintf(" jwt access token scopes=%v granted=%v", got, info.Granted))
-			} else if !scopeOpen && !slices.Equal(got, want) {
+			} else if hasScope && !scopeOpen && !slices.Equal(got, want) {
 				res = engine.Bad(rule, o.class, "C07/issued-scope-differs/"+rtr+"/"+scopeClass, describe()+fmt.Sprintf(" jwt access token scopes=%v want=%v", got, want))
 			}
 		}
@@ -892,13 +891,16 @@ func TestCheck(t *testing.T) {
 		Depth  int
 		Off    bool // also with the provider's refresh grant switched off
 	}
-	runs := []run{{"", alphabet{Fams: famsQuick(), Callers: callersQuick(), Scopes: scopesQuick()}, 6, true}}
+	// MaxDepth is a safety bound only: with these alphabets the canonical state space is finite and
+	// the search runs until the frontier is empty (depth_completed / frontier_left in the evidence),
+	// i.e. histories of every length over the alphabet are covered.
+	runs := []run{{"", alphabet{Fams: famsQuick(), Callers: callersQuick(), Scopes: scopesQuick()}, 12, true}}
 	if c.Thorough() {
 		runs = []run{
-			// deeper, over a superset of the quick alphabet
-			{"", alphabet{Fams: famsQuick(), Callers: callersDeep(), Scopes: scopesThorough(), Missing: true}, 7, true},
-			// wider: more client kinds and callers, chains of refreshes from an all-redeemed initial state
-			{"/wide", alphabet{Fams: famsWide(), Callers: callersWide(), Scopes: scopesThorough(), Missing: true}, 3, false},
+			// superset of the quick alphabet: more callers, more scope lists, request without refresh_token
+			{"", alphabet{Fams: famsQuick(), Callers: callersThorough(), Scopes: scopesThorough(), Missing: true}, 16, true},
+			// other client kinds as token owners, from an all-redeemed initial state
+			{"/wide", alphabet{Fams: famsWide(), Callers: callersThorough(), Scopes: scopesThorough(), Missing: true}, 16, false},
 		}
 	}
 	var desc []map[string]any
@@ -923,6 +925,11 @@ func TestCheck(t *testing.T) {
 					MaxDepth:  r.Depth,
 					MaxStates: 3_000_000,
 				})
+				if lp := c.LastPart(); c.ReplayFile == "" && lp != nil && lp["part"] == p.name() {
+					if left, _ := lp["frontier_left"].(int); left != 0 {
+						c.Cap(fmt.Sprintf("%s: frontier not empty at the safety depth %d (%d states left); histories are covered up to that depth only", p.name(), r.Depth, left))
+					}
+				}
 			}
 		}
 	}
